@@ -58,7 +58,11 @@ class SympyToBQM:
                 return pyqubo.Xor(*args)
         elif isinstance(e, Or):
             args = [self.visit(a) for a in e.args]
-            return pyqubo.Or(*args)
+
+            if len(args) > 2:
+                return pyqubo.Or(args[0], self.visit(Or(*e.args[1:])))
+            else:
+                return pyqubo.Or(*args)
         else:
             raise Exception(f"{e}: unable to translate to BQM")
 
